@@ -1,6 +1,7 @@
 """C17 -- the Lie-group maps (narrow: "for single matrices and for arrays of
 matrices alike", the dtype of the images, reachability; not the homomorphism
 identities)."""
+from ..rules import numpy_rules as NP
 from ..rules import shape_rules as S
 from ..rules import dtype_rules as D
 from ..rules.common import u1
@@ -20,6 +21,7 @@ def run(ctx):
     ctx.do(S.rule_sh8)
     ctx.do(D.rule_t4, [LIE, HOM])
     ctx.do(D.rule_t3, [LIE])
+    ctx.do(NP.rule_stk1, [LIE, HOM])
     ctx.do(D.rule_lk1, [LIE])
     ctx.do(u1, ENTRIES, min_functions=12)
     ctx.r.assume("that products go to products, determinants, preserved "
